@@ -61,7 +61,10 @@ Fixpoint find_key (k : Z) (l : list (Z * nat)) : option nat :=
 
 Inductive ev :=
 | ERequest (cb : nat) (send_ok : bool)   (* _async_request: get seq, register, send (which may raise) *)
-| EResponse (seq : Z) (is_exc : bool).   (* _dispatch of MSG_REPLY / MSG_EXCEPTION: _seq_request_callback *)
+| EResponse (seq : Z) (is_exc : bool)    (* _dispatch of MSG_REPLY / MSG_EXCEPTION: _seq_request_callback *)
+| EUndecodable (seq : Z) (guarded : bool). (* a response bearing seq whose payload cannot be rebuilt on this side (unboxing raises); [guarded]: the
+                                            tree turns that into an exception for the request (fact response_decode_guarded), else the error
+                                            escapes _dispatch before the callback is looked up *)
 
 Definition req_step (s : req_state) (e : ev) : req_state :=
   match e with
@@ -74,6 +77,11 @@ Definition req_step (s : req_state) (e : ev) : req_state :=
       match find_key q (callbacks s) with
       | Some cb => {| next_seq := next_seq s; callbacks := remove_key q (callbacks s); log := log s ++ [(cb, is_exc)] |}
       | None => s
+      end
+  | EUndecodable q g =>
+      match g, find_key q (callbacks s) with
+      | true, Some cb => {| next_seq := next_seq s; callbacks := remove_key q (callbacks s); log := log s ++ [(cb, true)] |}
+      | _, _ => s
       end
   end.
 
@@ -102,6 +110,7 @@ Definition run_proto (x : sx) : sx :=
         let s := fold_left req_step (map (fun it => match it with
                                                     | SL [SI 0; cb; ok] => ERequest (sx_nat cb) (sx_bool ok)
                                                     | SL [SI 1; SI q; e] => EResponse q (sx_bool e)
+                                                    | SL [SI 2; SI q; g] => EUndecodable q (sx_bool g)
                                                     | _ => EResponse (-1) false end%Z) items) init_req in
         SL [SI (next_seq s); SL (map (fun c => SL [SI (fst c); snat (snd c)]) (callbacks s));
             SL (map (fun c => SL [snat (fst c); sbool (snd c)]) (log s))]
